@@ -179,6 +179,9 @@ fn main() {
         "10", "100", "1000000", "4294967290", "10000000000", "42949672960", "18446744073709551610", "184467440737095516160", "100000000000000000000", "0010000000000", "00100", "0100000000000000000000"];
     let templates = ["{N}", "{N}.0", "1.{N}", "1.0.{N}.1", "{N}!1.0", "1.0a{N}", "1.0rc.{N}", "1.0.post{N}", "1.0-{N}", "1.0.dev{N}", "1.0+{N}", "1.0+a.{N}", "1.0+{N}.a",
         "{N}!{N}.{N}a{N}.post{N}.dev{N}+{N}"];
+    // plus the dense grid (numpool), plain and with one leading zero
+    let grid: Vec<String> = numpool::grid().into_iter().flat_map(|n| [n.clone(), format!("0{n}")]).collect();
+    let nums: Vec<&str> = nums.iter().copied().chain(grid.iter().map(|s| s.as_str())).collect();
     let mut sd = Stats::default();
     // long inputs (a parser that looks at a bounded prefix, or echoes a shortened copy): lengths around 2^8, 2^10, 2^12, 2^16
     for n in [120usize, 126, 127, 128, 250, 254, 255, 256, 257, 300, 1023, 1024, 1025, 4096] {
@@ -191,7 +194,7 @@ fn main() {
         }
     }
     for t in templates {
-        for n in nums {
+        for n in &nums {
             let x = t.replace("{N}", n);
             sd.inc("boundary_cases");
             let v = judge(&x, true, &mut sd);
@@ -233,7 +236,7 @@ fn main() {
             m.lock().unwrap().push(x);
         });
     }
-    for t in templates { for n in nums { corpus.push(t.replace("{N}", n)); } }
+    for t in templates { for n in &nums { corpus.push(t.replace("{N}", n)); } }
     let corpus_path_s = format!("{}/target/c09_corpus.jsonl", verif_root());
     let corpus_path = corpus_path_s.as_str();
     let mut xcheck_cases = 0u64;
